@@ -325,7 +325,11 @@ func RunCheck(o CheckOptions) int {
 			rec := &cexRecord{Property: o.Prop, Harness: pn.h.Name(), Package: pn.rep.Package, Label: ob.Label, Tier: o.Tier,
 				Kind: "R1", Vals: ob.Model, Decisions: ob.Decs, Facts: ob.Facts, Trace: ob.Trace, RepoHead: head}
 			allCex = append(allCex, rec)
-			natIn = append(natIn, &nativeInput{Harness: pn.h.Name(), Package: pn.rep.Package, Vals: ob.Model})
+			rpt := 0
+			if ob.Facts["_maporder"] != "" {
+				rpt = 60
+			}
+			natIn = append(natIn, &nativeInput{Harness: pn.h.Name(), Package: pn.rep.Package, Vals: ob.Model, Repeat: rpt})
 			cexRefs = append(cexRefs, cexRef{rec, len(natIn) - 1})
 		}
 	}
@@ -341,7 +345,7 @@ func RunCheck(o CheckOptions) int {
 					rep.CrossFailed = append(rep.CrossFailed, "no native outcome")
 					continue
 				}
-				if !out.Skipped {
+				if !out.Skipped && r.Facts["_maporder"] == "" {
 					rep.CrossChecked++
 				}
 				if msg := compareOutcome(r, out); msg != "" && len(rep.CrossFailed) < 5 {
@@ -506,6 +510,7 @@ type nativeInput struct {
 	Harness string            `json:"harness"`
 	Package string            `json:"package"`
 	Vals    map[string]uint64 `json:"vals"`
+	Repeat  int               `json:"repeat,omitempty"` // re-run until an assert fails (map-order dependent counterexamples)
 }
 
 type nativeOutcome struct {
@@ -520,7 +525,9 @@ type nativeOutcome struct {
 }
 
 func compareOutcome(r *PathResult, out *nativeOutcome) string {
-	if out.Skipped {
+	if out.Skipped || r.Facts["_maporder"] != "" {
+		// engine-only paths, and paths on which the engine chose a map iteration order (the
+		// native run cannot be forced into the same order), are not comparable
 		return ""
 	}
 	if out.AssumeBad {
@@ -575,6 +582,7 @@ type zzIn struct {
 	Harness string            ` + "`json:\"harness\"`" + `
 	Package string            ` + "`json:\"package\"`" + `
 	Vals    map[string]uint64 ` + "`json:\"vals\"`" + `
+	Repeat  int               ` + "`json:\"repeat\"`" + `
 }
 
 func TestZZVerifNative(t *testing.T) {
@@ -598,6 +606,9 @@ func TestZZVerifNative(t *testing.T) {
 			continue
 		}
 		outs[i] = verif.RunNative(&verif.Input{Vals: in.Vals}, f)
+		for k := 1; k < in.Repeat && len(outs[i].Failed) == 0 && outs[i].Panic == ""; k++ {
+			outs[i] = verif.RunNative(&verif.Input{Vals: in.Vals}, f)
+		}
 	}
 	ob, _ := json.Marshal(outs)
 	if err := os.WriteFile(os.Getenv("HCVERIF_OUTPUTS"), ob, 0644); err != nil {
